@@ -38,6 +38,22 @@ fn text(rng: &mut Rng,len: usize) -> String {
 
 pub fn dispatch(toks: &[&str]) -> String {
     match toks[0] {
+        "txtenc" | "txtdec" => {
+            // txtenc id fs hextext / txtdec id fs hexbytes : the flat text converters with the terminator their packer uses
+            use a2kit::fs::TextConversion;
+            let arg = unhex(if toks[3]=="-" {""} else {toks[3]});
+            let enc = toks[0]=="txtenc";
+            let txt = String::from_utf8_lossy(&arg).to_string();
+            let r: Option<Vec<u8>> = match (toks[2],enc) {
+                ("dos3x",true) => a2kit::fs::dos3x::types::TextConverter::new(vec![0x8d]).from_utf8(&txt),
+                ("dos3x",false) => a2kit::fs::dos3x::types::TextConverter::new(vec![0x8d]).to_utf8(&arg).map(|s| s.into_bytes()),
+                ("prodos",true) => a2kit::fs::prodos::types::TextConverter::new(vec![0x0d]).from_utf8(&txt),
+                ("prodos",false) => a2kit::fs::prodos::types::TextConverter::new(vec![0x0d]).to_utf8(&arg).map(|s| s.into_bytes()),
+                (_,true) => a2kit::fs::cpm::types::TextConverter::new(vec![]).from_utf8(&txt),
+                (_,false) => a2kit::fs::cpm::types::TextConverter::new(vec![]).to_utf8(&arg).map(|s| s.into_bytes())
+            };
+            match r { Some(v) => format!("ok:{}",tohex(&v)), None => "none".to_string() }
+        },
         "pasenc" => {
             // pasenc id hextext : the Pascal text encoder alone (TextConverter::from_utf8 with the CR terminator)
             use a2kit::fs::TextConversion;
